@@ -195,7 +195,15 @@ class DULServiceProvider(threading.Thread):
                     evt = self.event.popleft()
                 except IndexError:
                     continue
-                self.state_machine.action(evt)
+                try:
+                    self.state_machine.action(evt)
+                except socket.error:
+                    # the transport connection failed under the action (peer gone while sending)
+                    if not self.dul_socket or self.state_machine.current_state == fsm.States.STA_1:
+                        raise
+                    self.dul_socket.close()
+                    self.dul_socket = None
+                    self.event.append(fsm.Events.EVT_17)
                 if self.dimse_gen and self.state_machine.current_state not in (
                         fsm.States.STA_6, fsm.States.STA_8):
                     # the association can no longer carry data: forget the rest of the message
